@@ -274,6 +274,8 @@ def splice(template_path, repo_root, canary=False, quarantine=(), inline=None):
                 unit["features_off"] = tuple(kv["features_off"].split(","))
             if "rlimit" in kv:
                 unit["rlimit"] = int(kv["rlimit"])
+            if "own_iter" in kv:
+                unit["own_iter"] = tuple(x for x in kv["own_iter"].split(",") if x)
             i += 1
             continue
         if s.startswith("//@USUB"):
